@@ -206,6 +206,10 @@ loop:
 	for _, s := range header[key] {
 		for {
 			var spec AcceptSpec
+			// RFC 7230 section 7: a recipient must ignore empty list elements
+			for s = skipSpace(s); strings.HasPrefix(s, ","); {
+				s = skipSpace(s[1:])
+			}
 			spec.Value, s = expectTokenSlash(s)
 			if spec.Value == "" {
 				continue loop
